@@ -617,6 +617,40 @@ def stable_dt_limit(k, shape):
     return math.inf if hsum <= 0 else 0.85 * _LIMIT["hl"] / hsum
 
 
+def _inside_c06_stable(case):
+    """The run lies inside the range in which C06's theorems guarantee an admissible trajectory
+    (Snow.C06.Stable: 2*dt*Hsum <= m*c_p_min and (dt*Hsum*(hi-lo))^2 <= m^2*c_p_min*D*lambda*(1-w_s)), evaluated
+    conservatively for the packaged default solution only (a configured solution: not claimed here, C06 owns it).
+    The generators of this module use the wider range dt*Hsum <= 0.85*m*c_p_min, in which sigma CAN leave [0,1)
+    (explicit step near sigma -> 1): that is outside C06's quantifier, not a violation."""
+    if case.get("config"):
+        return False
+    try:
+        from ethz_snow.constants import calculateDerived
+
+        c = calculateDerived(None)
+        ws = float(c["solid_fraction"])
+        cp_min = ws * float(c["cp_s"]) + (1 - ws) * min(float(c["cp_i"]), float(c["cp_w"]))
+        m = float(c["mass"])
+        k = case["k"]
+        shape = case["shape"]
+        nb = 6 if shape[2] > 1 else 4
+        if str(case.get("arr", "")).startswith("hex"):
+            nb += 2
+        hsum = (nb * k.get("int", 0) + (nb + 2) * k.get("ext", 0)
+                + k.get("s0", 0) * (1 + 4 * k.get("s_sigma_rel", 0.0))) * float(c["A"])
+        dt = float(case["dt"])
+        hi = max(float(case["start"]), float(c["T_eq"]))
+        lo = min(float(case["stop"]), float(case["start"]))
+        D = float(c["depression"])
+        lam = float(c["Dh"]) if "Dh" in c else float(c["alpha"]) / (m * (1 - ws))
+        cfl = 2 * dt * hsum <= m * cp_min
+        xcond = (dt * hsum * (hi - lo)) ** 2 <= m ** 2 * cp_min * D * lam * (1 - ws)
+        return bool(cfl and xcond)
+    except Exception:
+        return False
+
+
 def _first(row, thr):
     for k, x in enumerate(row):
         if x > thr:
@@ -657,12 +691,13 @@ def predicates(case, impl):
     # leave it (numerically unstable explicit steps) are counted as `outside_hypothesis` in the evidence.
     adm = [_adm_row(row) for row in Xs]
     adm_all = all(adm)
-    if not adm_all and not case.get("unstable"):
+    if not adm_all and not case.get("unstable") and _inside_c06_stable(case):
         # (C06's clause - but C12 must not go silent: inside the stable range of the generators an inadmissible
         # trajectory is itself reported)
         bad = [stored[r] for r, ok in enumerate(adm) if not ok]
         F("outside_adm_in_stable_range", "run", "sigma<0-or-ice-lost",
-          f"vials {bad[:5]}: sigma negative or ice lost in a run generated INSIDE the stable range dt*Hsum <= 0.85*m*c_p_min")
+          f"vials {bad[:5]}: sigma negative or ice lost in a run INSIDE C06's stable range "
+          "(2*dt*Hsum <= m*c_p_min and (dt*Hsum*(hi-lo))^2 <= m^2*c_p_min*D*lambda*(1-w_s), default solution)")
 
     if impl.get("requery_changed"):
         F("accessor_pure", "+".join(impl["requery_changed"][:4]), "in-place-mutation-of-returned-array",
